@@ -5,9 +5,13 @@ CHECK = {
         "ReloadKeyring/SetRotationConfig on a sealed barrier are not generated (not part of the statement; they dereference the dropped keyring)",
     ],
     "units": [
-        unit("barrier-state", "barrier", ["barrier/c10_state_test.go"], "^TestVerif_C10_",
+        unit("barrier-state", "barrier", ["barrier/c10_state_test.go"], "^TestVerif_C10_State$",
              quick={"checks": 10000, "shards": 1, "cap": 600, "steps": 30},
              thorough={"checks": 20000, "shards": 16, "cap": 2400, "steps": 50}),
+        unit("barrier-concurrent", "barrier", ["barrier/c10_state_test.go", "barrier/c10_conc_test.go"], "^TestVerif_C10_BarrierConcurrent$",
+             quick={"checks": 1500, "shards": 1, "cap": 600},
+             thorough={"checks": 10000, "shards": 16, "cap": 2400},
+             flaky_is_violation=True),
         unit("crash-rotation", "vault", ["vault/c10_test.go"], "^TestVerif_C10_CrashInRotation$",
              quick={"checks": 25, "shards": 1, "cap": 900},
              thorough={"checks": 150, "shards": 16, "cap": 3000}),
